@@ -668,10 +668,16 @@ func (vc *VC) mergeStates(ss []*State) *State {
 			gn[k] = true
 		}
 	}
+	gget := func(s *State, k string) string {
+		if v, ok := s.Ghost[k]; ok && v != "" {
+			return v
+		}
+		return "1.0" // "now": no clock reading yet on this path
+	}
 	for k := range gn {
-		t := ss[len(ss)-1].Ghost[k]
+		t := gget(ss[len(ss)-1], k)
 		for i := len(ss) - 2; i >= 0; i-- {
-			t = ite(ss[i].Cond, ss[i].Ghost[k], t)
+			t = ite(ss[i].Cond, gget(ss[i], k), t)
 		}
 		out.Ghost[k] = t
 	}
